@@ -664,6 +664,7 @@ def _run_vector(desc):
                 sh.violation("vector:%s:operation-raised" % ">".join(names), case, {"error": "%s: %s" % (type(e).__name__, str(e)[:200])})
             sh.evaluations += 1
             sh.nontrivial += 1
+            sh.states += 1
             sh.transitions += 1
             if len(sh.violations) > 20:
                 return sh
